@@ -81,6 +81,12 @@ CHECKS["C05"] = dict(
     note="Trusts TLC, the canonical rendering, and the marker values the replay puts into properties; objects carry a unique tag so that structural == is identity.",
     design="§5 C05")
 
+CHECKS["C09"] = dict(
+    technique="TLA+ spec PanCollections (first-wins insertion of explicit pairs then ** operands, key identity, listing order, accessors): TLC enumerates literals over a key pool with every duplicate pattern, checks the definitions' invariants and prescribes every accessor's result; each literal is replayed in the real interpreter",
+    text="Bounded-exhaustive over object and map literals (<= 2 pairs quick, 3 thorough; 12 map keys of all key kinds; ** of maps and objects in both orders): keys/values/items (with private?: true), iteration, len, index for every pool key, structure and printed pairs agree with the model; the ** operands are unchanged afterwards.",
+    note="Trusts TLC and the canonical rendering; printed form is compared as a set of pairs.",
+    design="§5 C09")
+
 NOT_YET = {}
 
 def main():
